@@ -4,83 +4,443 @@ package home
 
 import (
 	"bytes"
+	"context"
+	"errors"
 	"fmt"
+	"net/http"
 	"os"
 	"path/filepath"
+	"reflect"
+	"sort"
+	"strings"
 	"testing"
+	"time"
 
+	"github.com/AdguardTeam/AdGuardHome/internal/aghnet"
+	"github.com/AdguardTeam/AdGuardHome/internal/client"
 	"github.com/AdguardTeam/AdGuardHome/internal/configmigrate"
+	"github.com/AdguardTeam/AdGuardHome/internal/dhcpd"
+	"github.com/AdguardTeam/AdGuardHome/internal/dnsforward"
+	"github.com/AdguardTeam/AdGuardHome/internal/filtering"
+	"github.com/AdguardTeam/AdGuardHome/internal/filtering/safesearch"
+	"github.com/AdguardTeam/AdGuardHome/internal/querylog"
+	"github.com/AdguardTeam/AdGuardHome/internal/stats"
+	"github.com/AdguardTeam/golibs/logutil/slogutil"
 	yaml "gopkg.in/yaml.v3"
 )
 
-// TestVerifC13Loader is the loader side of C13: every example configuration
-// of the repository (valid under its own schema version), upgraded to the
-// current version, is accepted by the current loader: yaml.Unmarshal into the
-// configuration type (over the defaults, as parseConfig does) and
-// validateConfig.  Monitor only; the Coq case is a flag.
+// c13DeepCopy copies src into dst following pointers, slices and maps, so
+// that decoding a document into the copy leaves the original defaults alone.
+func c13DeepCopy(dst, src reflect.Value) {
+	switch src.Kind() {
+	case reflect.Ptr:
+		if src.IsNil() {
+			dst.Set(reflect.Zero(src.Type()))
+			return
+		}
+		n := reflect.New(src.Type().Elem())
+		c13DeepCopy(n.Elem(), src.Elem())
+		dst.Set(n)
+	case reflect.Struct:
+		dst.Set(src)
+		for i := 0; i < src.NumField(); i++ {
+			if dst.Field(i).CanSet() {
+				c13DeepCopy(dst.Field(i), src.Field(i))
+			}
+		}
+	case reflect.Slice:
+		if src.IsNil() {
+			dst.Set(reflect.Zero(src.Type()))
+			return
+		}
+		n := reflect.MakeSlice(src.Type(), src.Len(), src.Len())
+		for i := 0; i < src.Len(); i++ {
+			c13DeepCopy(n.Index(i), src.Index(i))
+		}
+		dst.Set(n)
+	case reflect.Map:
+		if src.IsNil() {
+			dst.Set(reflect.Zero(src.Type()))
+			return
+		}
+		n := reflect.MakeMapWithSize(src.Type(), src.Len())
+		for _, k := range src.MapKeys() {
+			e := reflect.New(src.Type().Elem()).Elem()
+			c13DeepCopy(e, src.MapIndex(k))
+			n.SetMapIndex(k, e)
+		}
+		dst.Set(n)
+	default:
+		dst.Set(src)
+	}
+}
+
+// c13LoadStage is one thing start-up does with the decoded configuration.
+type c13LoadStage struct {
+	name string
+	run  func(ctx context.Context, dir string) error
+}
+
+var c13ServerConf *dnsforward.ServerConfig
+
+var c13NoRegister = func(string, string, http.HandlerFunc) {}
+
+// c13Stages lists, in the order of run() in home.go, the initialisation and
+// validation steps that look at what an upgrade wrote: they can reject (or
+// crash on) a file whose upgrade left something behind.
+func c13Stages() []c13LoadStage {
+	logger := slogutil.NewDiscardLogger()
+	var storage *client.Storage
+	var flt *filtering.DNSFilter
+	return []c13LoadStage{
+		{"validateConfig", func(context.Context, string) error { return validateConfig() }},
+		{"validateTLSCipherIDs", func(context.Context, string) error { return validateTLSCipherIDs(config.TLS.OverrideTLSCiphers) }},
+		{"schema_version", func(context.Context, string) error {
+			if config.SchemaVersion != configmigrate.LastSchemaVersion {
+				return fmt.Errorf("loaded schema_version %d", config.SchemaVersion)
+			}
+			return nil
+		}},
+		// initContextClients: the DHCP server object ...
+		{"dhcpd.Create", func(_ context.Context, dir string) error {
+			//lint:ignore SA1019 as home does
+			config.DHCP.WorkDir = dir
+			config.DHCP.DataDir = dir
+			config.DHCP.HTTPRegister = c13NoRegister
+			config.DHCP.ConfigModified = func() {}
+			srv, err := dhcpd.Create(config.DHCP)
+			if err == nil && srv == nil {
+				err = fmt.Errorf("no dhcp server")
+			}
+			return err
+		}},
+		// ... and every persistent client (clientObject.toPersistent: ids, safe
+		// search, blocked services with the nil default, tags) and the storage
+		{"toPersistent", func(ctx context.Context, _ string) error {
+			filtering.InitModule()
+			for i, o := range config.Clients.Persistent {
+				c := *o
+				if _, err := c.toPersistent(ctx, logger, config.Filtering.SafeSearchCacheSize, time.Minute); err != nil {
+					return fmt.Errorf("client %d: %w", i, err)
+				}
+			}
+			return nil
+		}},
+		{"clients.Init", func(ctx context.Context, _ string) error {
+			cc := &clientsContainer{testing: true}
+			err := cc.Init(ctx, logger, config.Clients.Persistent, client.EmptyDHCP{}, nil, nil, config.Filtering, newSignalHandler(nil, nil))
+			storage = cc.storage
+			return err
+		}},
+		{"newTLSManager", func(ctx context.Context, _ string) error {
+			_, err := newTLSManager(ctx, &tlsManagerConfig{
+				logger: logger, configModified: func() {}, tlsSettings: config.TLS, servePlainDNS: config.DNS.ServePlainDNS,
+			})
+			return err
+		}},
+		// setupDNSFilteringConf, the parts that read the file
+		{"safesearch.NewDefault", func(ctx context.Context, _ string) error {
+			_, err := safesearch.NewDefault(ctx, &safesearch.DefaultConfig{
+				Logger: logger, ServicesConfig: config.Filtering.SafeSearchConf,
+				CacheSize: config.Filtering.SafeSearchCacheSize, CacheTTL: time.Duration(config.Filtering.CacheTime) * time.Minute,
+			})
+			return err
+		}},
+		{"initUsers", func(context.Context, string) error {
+			for i, u := range config.Users {
+				if u.Name == "" || u.PasswordHash == "" {
+					return fmt.Errorf("user %d: empty name or password hash", i)
+				}
+			}
+			return nil
+		}},
+		// initDNS
+		{"stats.New", func(_ context.Context, dir string) error {
+			eng, err := aghnet.NewIgnoreEngine(config.Stats.Ignored)
+			if err != nil {
+				return fmt.Errorf("ignored: %w", err)
+			}
+			s, err := stats.New(stats.Config{
+				Logger: logger, Filename: filepath.Join(dir, "stats.db"), Limit: time.Duration(config.Stats.Interval),
+				ConfigModified: func() {}, HTTPRegister: c13NoRegister, Enabled: config.Stats.Enabled, Ignored: eng,
+				ShouldCountClient: func([]string) bool { return true },
+			})
+			if err == nil {
+				err = s.Close()
+			}
+			return err
+		}},
+		{"querylog.New", func(_ context.Context, dir string) error {
+			eng, err := aghnet.NewIgnoreEngine(config.QueryLog.Ignored)
+			if err != nil {
+				return fmt.Errorf("ignored: %w", err)
+			}
+			_, err = querylog.New(querylog.Config{
+				Logger: logger, Anonymizer: config.anonymizer(), ConfigModified: func() {}, HTTPRegister: c13NoRegister,
+				FindClient: func([]string) (*querylog.Client, error) { return nil, nil }, BaseDir: dir,
+				AnonymizeClientIP: config.DNS.AnonymizeClientIP, RotationIvl: time.Duration(config.QueryLog.Interval),
+				MemSize: config.QueryLog.MemSize, Enabled: config.QueryLog.Enabled, FileEnabled: config.QueryLog.FileEnabled, Ignored: eng,
+			})
+			return err
+		}},
+		{"filtering.New", func(_ context.Context, dir string) error {
+			conf := config.Filtering
+			conf.ConfigModified = func() {}
+			conf.HTTPRegister = c13NoRegister
+			conf.DataDir = dir
+			conf.Filters = append([]filtering.FilterYAML(nil), config.Filters...)
+			conf.WhitelistFilters = append([]filtering.FilterYAML(nil), config.WhitelistFilters...)
+			conf.UserRules = append([]string(nil), config.UserRules...)
+			f, err := filtering.New(conf, nil)
+			flt = f
+			return err
+		}},
+		// initDNSServer: the server configuration built from the dns section
+		{"newServerConfig", func(ctx context.Context, _ string) error {
+			tlsMgr, _ := newTLSManager(ctx, &tlsManagerConfig{
+				logger: logger, configModified: func() {}, tlsSettings: config.TLS, servePlainDNS: config.DNS.ServePlainDNS,
+			})
+			if tlsMgr == nil {
+				return fmt.Errorf("no tls manager")
+			}
+			sc, err := newServerConfig(&config.DNS, config.Clients.Sources, tlsMgr.config(), tlsMgr, c13NoRegister, storage)
+			if err != nil {
+				return err
+			}
+			// the value step 28 writes is checked by dnsforward when the proxy
+			// configuration is built
+			switch sc.UpstreamMode {
+			case dnsforward.UpstreamModeLoadBalance, dnsforward.UpstreamModeParallel, dnsforward.UpstreamModeFastestAddr:
+			default:
+				return fmt.Errorf("upstream_mode: unexpected value %q", sc.UpstreamMode)
+			}
+			c13ServerConf = sc
+			return nil
+		}},
+		{"dnsforward.Prepare", func(ctx context.Context, dir string) error {
+			defer flt.Close()
+			srv, err := dnsforward.NewServer(dnsforward.DNSCreateParams{
+				Logger: logger, DNSFilter: flt, PrivateNets: parseSubnetSet(config.DNS.PrivateNets),
+				Anonymizer: config.anonymizer(), LocalDomain: config.DHCP.LocalDomainName,
+			})
+			if err != nil {
+				return fmt.Errorf("NewServer: %w", err)
+			}
+			defer srv.Close()
+			err = srv.Prepare(c13ServerConf)
+			if privErr := (&dnsforward.PrivateRDNSError{}); errors.As(err, &privErr) {
+				c13ServerConf.UsePrivateRDNS = false
+				err = srv.Prepare(c13ServerConf)
+			}
+			return err
+		}},
+	}
+}
+
+// c13Load upgrades body and runs the loader and the start-up stages on the
+// result.  Any rejection or panic is reported with the stage's name.
+func c13Load(pristine *configuration, body []byte, dir string) (ok bool, msg string, stagesRun int) {
+	ok = true
+	stage := "Migrate"
+	defer func() {
+		if p := recover(); p != nil {
+			ok, msg = false, fmt.Sprintf("%s: panic: %v", stage, p)
+		}
+	}()
+	mg := configmigrate.New(&configmigrate.Config{WorkingDir: filepath.Join(dir, "nonexistent"), DataDir: dir})
+	newBody, _, merr := mg.Migrate(body, configmigrate.LastSchemaVersion)
+	if merr != nil {
+		return false, "upgrade of a valid document failed: " + merr.Error(), 0
+	}
+	stage = "yaml.Unmarshal"
+	fresh := &configuration{}
+	c13DeepCopy(reflect.ValueOf(fresh).Elem(), reflect.ValueOf(pristine).Elem())
+	config = fresh
+	if uerr := yaml.Unmarshal(newBody, &config); uerr != nil {
+		return false, "loader rejects the upgraded document: " + uerr.Error(), 0
+	}
+	ctx, cancel := context.WithTimeout(context.Background(), 20*time.Second)
+	defer cancel()
+	for _, s := range c13Stages() {
+		stage = s.name
+		if err := s.run(ctx, dir); err != nil {
+			return false, fmt.Sprintf("%s rejects the upgraded document: %v", s.name, err), stagesRun
+		}
+		stagesRun++
+	}
+	return true, "", stagesRun
+}
+
+// c13LoaderClients are persistent clients valid under the schema of version
+// ver: no [blocked_services] key at all for some (the pointer stays nil in the
+// loaded object), lists of services for others, the old safe search switch,
+// ip/mac below version 6.
+func c13LoaderClients(ver int) []any {
+	type v struct {
+		ip, mac string
+		safe    any
+		blocked any
+	}
+	vs := []v{
+		{"10.0.0.1", "", false, []any{"500px"}},
+		{"", "aa:bb:cc:dd:ee:01", true, []any{"9gag", "amazon"}},
+		{"10.0.0.3", "aa:bb:cc:dd:ee:03", nil, nil},
+		{"2001:db8::6", "", true, []any{}},
+	}
+	var l []any
+	for i, x := range vs {
+		c := map[string]any{
+			"name": fmt.Sprintf("client-%d", i), "use_global_settings": i%2 == 0, "filtering_enabled": i%3 == 0,
+			"parental_enabled": i%3 == 1, "safebrowsing_enabled": i%2 == 1,
+			"tags": []any{[]string{"device_pc", "user_child", "os_linux", "device_tv"}[i]}, "upstreams": []any{fmt.Sprintf("10.1.1.%d", i+1)},
+		}
+		if ver < 6 {
+			c["ip"], c["mac"] = x.ip, x.mac
+		} else {
+			ids := []any{}
+			for _, s := range []string{x.ip, x.mac} {
+				if s != "" {
+					ids = append(ids, s)
+				}
+			}
+			c["ids"] = ids
+		}
+		if ver >= 4 {
+			c["use_global_blocked_services"] = i%2 == 0
+		}
+		if x.safe != nil {
+			if ver < 19 {
+				c["safesearch_enabled"] = x.safe
+			} else {
+				c["safe_search"] = map[string]any{"enabled": x.safe, "bing": true, "duckduckgo": i%2 == 0, "google": true, "pixabay": true, "yandex": true, "youtube": i%2 == 1}
+			}
+		}
+		if x.blocked != nil {
+			if ver < 22 {
+				c["blocked_services"] = x.blocked
+			} else {
+				c["blocked_services"] = map[string]any{"ids": x.blocked, "schedule": map[string]any{"time_zone": "Local"}}
+			}
+		}
+		l = append(l, c)
+	}
+	return l
+}
+
+// TestVerifC13Loader is the loader side of C13: documents valid under their
+// own schema version, upgraded to the current version, are accepted by what
+// start-up runs on the file: yaml.Unmarshal into the configuration type over
+// the defaults (as parseConfig does), validateConfig, and the initialisation
+// steps of c13Stages.  Monitor only; the Coq case is a flag.
 func TestVerifC13Loader(t *testing.T) {
 	out := vfOpen(t, "C13loader")
 	defer out.Close()
 
 	golden := filepath.Join("..", "configmigrate", "testdata", "TestMigrateConfig_Migrate")
-	saved := *config
-	defer func() { *config = saved }()
+	savedPtr := config
+	defer func() { config = savedPtr }()
+	pristine := &configuration{}
+	c13DeepCopy(reflect.ValueOf(pristine).Elem(), reflect.ValueOf(savedPtr).Elem())
+	globalContext.mux = http.NewServeMux()
+
+	n := 0
+	run := func(body []byte, what string, classes ...string) {
+		n++
+		dir := filepath.Join(t.TempDir(), fmt.Sprintf("d%d", n))
+		if err := os.MkdirAll(dir, 0o755); err != nil {
+			t.Fatal(err)
+		}
+		ok, msg, stages := c13Load(pristine, body, dir)
+		c := vfCase{
+			Coq:        vfApp("C13.CLoader", vfBool(ok)),
+			Nontrivial: true, MonitorOK: ok, MonitorMsg: msg,
+			Classes: append([]string{"loader-accepts"}, classes...),
+			Desc:    map[string]any{"what": what, "body": string(body), "stages_run": stages},
+		}
+		if !ok {
+			c.FindingKey = "loader-rejects"
+			c.Classes = classes
+		}
+		out.Emit(c)
+	}
+
+	read := func(step int, name string) (yobj map[string]any, body []byte) {
+		body, err := os.ReadFile(filepath.Join(golden, fmt.Sprintf("v%d", step), name))
+		if err != nil {
+			return nil, nil // there is no v28 directory
+		}
+		// the examples carry a placeholder where a file path belongs
+		body = bytes.ReplaceAll(body, []byte("FILEPATH"), []byte("/etc/agh/list.txt"))
+		yobj = map[string]any{}
+		if err = yaml.Unmarshal(body, &yobj); err != nil {
+			t.Fatal(err)
+		}
+		return yobj, body
+	}
 
 	for step := 1; step <= int(configmigrate.LastSchemaVersion); step++ {
 		for _, name := range []string{"input.yml", "output.yml"} {
-			body, err := os.ReadFile(filepath.Join(golden, fmt.Sprintf("v%d", step), name))
+			if _, body := read(step, name); body != nil {
+				run(body, fmt.Sprintf("golden v%d/%s upgraded and loaded", step, name), "loader-golden")
+			}
+		}
+	}
+
+	// several persistent clients, as files of each schema version hold them
+	for step := 1; step <= int(configmigrate.LastSchemaVersion); step++ {
+		m, _ := read(step, "input.yml")
+		if m == nil {
+			continue
+		}
+		ver := step - 1
+		delete(m, "auth_pass") // bcrypt
+		cl := c13LoaderClients(ver)
+		if ver < 14 {
+			m["clients"] = cl
+		} else {
+			cm, _ := m["clients"].(map[string]any)
+			if cm == nil {
+				cm = map[string]any{}
+			}
+			cm["persistent"] = cl
+			m["clients"] = cm
+		}
+		body, err := yaml.Marshal(m)
+		if err != nil {
+			t.Fatal(err)
+		}
+		cls := "loader-clients"
+		if ver < 22 {
+			cls = "loader-clients-nil-blocked-services"
+		}
+		run(body, fmt.Sprintf("golden v%d/input.yml with four persistent clients", step), "loader-clients", cls)
+	}
+
+	// sections absent (their defaults apply): every top-level section of every
+	// example that an upgrade step reads
+	for step := 1; step <= int(configmigrate.LastSchemaVersion); step += out.Scale(3, 1) {
+		m, _ := read(step, "input.yml")
+		if m == nil {
+			continue
+		}
+		keys := make([]string, 0, len(m))
+		for k := range m {
+			keys = append(keys, k)
+		}
+		sort.Strings(keys)
+		for _, k := range keys {
+			if !strings.Contains(" coredns dns clients dhcp querylog statistics filtering filters http log os users tls ", " "+k+" ") {
+				continue
+			}
+			v := m[k]
+			delete(m, k)
+			delete(m, "auth_pass")
+			body, err := yaml.Marshal(m)
 			if err != nil {
-				continue // there is no v28 directory
+				t.Fatal(err)
 			}
-			// the examples carry a placeholder where a file path belongs
-			body = bytes.ReplaceAll(body, []byte("FILEPATH"), []byte("/etc/agh/list.txt"))
-			mg := configmigrate.New(&configmigrate.Config{
-				WorkingDir: filepath.Join(os.TempDir(), "verif-c13-nonexistent"),
-				DataDir:    "/vdata",
-			})
-			ok, msg := true, ""
-			func() {
-				defer func() {
-					if p := recover(); p != nil {
-						ok, msg = false, fmt.Sprint("panic: ", p)
-					}
-				}()
-				newBody, _, merr := mg.Migrate(body, configmigrate.LastSchemaVersion)
-				if merr != nil {
-					ok, msg = false, "upgrade of a repository example failed: "+merr.Error()
-					return
-				}
-				*config = saved
-				if uerr := yaml.Unmarshal(newBody, &config); uerr != nil {
-					ok, msg = false, "loader rejects the upgraded example: "+uerr.Error()
-					return
-				}
-				if verr := validateConfig(); verr != nil {
-					ok, msg = false, "validation rejects the upgraded example: "+verr.Error()
-					return
-				}
-				if config.SchemaVersion != configmigrate.LastSchemaVersion {
-					ok, msg = false, fmt.Sprintf("loaded schema_version %d", config.SchemaVersion)
-				}
-				// informational: settings the configuration type does not know
-				dec := yaml.NewDecoder(bytes.NewReader(newBody))
-				dec.KnownFields(true)
-				strict := saved
-				sp := &strict
-				if serr := dec.Decode(&sp); serr != nil {
-					out.Class("loader-unknown-fields")
-				}
-			}()
-			c := vfCase{
-				Coq:        vfApp("C13.CLoader", vfBool(ok)),
-				Nontrivial: true, MonitorOK: ok, MonitorMsg: msg,
-				Classes: []string{"loader-accepts"},
-				Desc:    map[string]any{"what": fmt.Sprintf("golden v%d/%s upgraded and loaded", step, name)},
-			}
-			if !ok {
-				c.FindingKey = "loader-rejects"
-			}
-			out.Emit(c)
+			run(body, fmt.Sprintf("golden v%d/input.yml without %s", step, k), "loader-section-absent")
+			m[k] = v
 		}
 	}
 }
